@@ -80,7 +80,7 @@ func C18_Run(job string) {
 			want int
 		}
 		lits := []lit{{"010", true, 10}, {"0123", true, 123}, {"-017", true, -17}, {"+5", true, 5}, {"08", true, 8}, {"00", true, 0}, {"0644", true, 644},
-			{"0x10", false, 0}, {"0b11", false, 0}, {"0o17", false, 0}, {"1_000", false, 0}, {"0_7", false, 0}, {"1e3", false, 0}, {"12 ", false, 0}, {"٣", false, 0}}
+			{"10.0", false, 0}, {"1200.0", false, 0}, {"12.0", false, 0}, {"-20.", false, 0}, {"9007199254740993.0", false, 0}, {"12.5", false, 0}, {"0x10", false, 0}, {"0b11", false, 0}, {"0o17", false, 0}, {"1_000", false, 0}, {"0_7", false, 0}, {"1e3", false, 0}, {"12 ", false, 0}, {"٣", false, 0}}
 		l := lits[v.Choice("lit", len(lits))]
 		i, i64, i32 := 77, int64(77), int32(77)
 		var e1, e2, e3 z.ZogIssueList
